@@ -54,6 +54,18 @@ Next ==
         /\ st' = [total |-> e.total, objects |-> e.objects, live0 |-> e.live, chunks0 |-> e.chunks, max1 |-> 0, max2 |-> 0]
         /\ UNCHANGED viol
      ELSE IF e.ev = "reset_after_crash" THEN UNCHANGED <<st, viol>>
+     ELSE IF e.ev = "lengths" THEN
+        \* C02 on a long stream: no stuff sequence anywhere in the drained output (incl. across drains) and
+        \* |output| <= len + 1 + 2 * ceil(len / 64008), (lengths are logged as 20-bit limbs; these streams stay below 2^31 bytes)
+        LET len == e.in_hi * 1048576 + e.in_lo              \* streams here are < 2^31 bytes
+            outlen == e.out_hi * 1048576 + e.out_lo
+            chunks == (len + L2 - 1) \div L2
+            bad == When(e.stuff > 0, {<<"C02", "the drained encoder output of a long stream contains FE FD">>})
+              \cup When(outlen > len + 1 + 2 * chunks,
+                        {<<"C02", "encoder output of a long stream is longer than len + 1 + 2*ceil(len/64008)">>})
+              \cup When(e.pending = 1, {<<"C09", "finish left a placeholder pending">>})
+        IN /\ st' = st
+           /\ viol' = CapViol(viol, {[run |-> e.run, line |-> l, prop |-> x[1], what |-> x[2]] : x \in bad})
      ELSE IF e.ev = "sample" THEN
         LET r == Sample(st, e) IN
         /\ st' = r.st
